@@ -138,7 +138,7 @@ func init() {
 					finished++
 				case t := <-parked:
 					waiting = append(waiting, t)
-				case <-time.After(5 * time.Second):
+				case <-time.After(wd(5 * time.Second)):
 					return "stuck"
 				}
 				continue
@@ -155,7 +155,7 @@ func init() {
 			select {
 			case <-done:
 				finished++
-			case <-time.After(5 * time.Second):
+			case <-time.After(wd(5 * time.Second)):
 				return "stuck"
 			}
 		}
